@@ -922,6 +922,22 @@ struct EvalVisitor
       return;
     }
     std::string line;
+#if WITH_ODE
+    if (op == "hist_odefinal" && x.size() == size_t(3 + Rep + Dof)) {
+      // sid n h x0 v  → integrate_n_steps again
+      const int sid = int(x[0]), n = int(x[1]);
+      const S h     = x[2];
+      const G x0    = elem(3);
+      const typename G::Tangent v = tang(3 + Rep);
+      const G xf    = ode_run<G>(sid, h, n, x0, v);
+      std::string l = "hist_odefinal " + m.gname + " " + Prec<S>::name;
+      for (size_t i = 0; i < x.size(); ++i) l += hexword<S>(x[i]);
+      l += " |" + M::wv(xf.coeffs());
+      std::printf("%s%s%s\n", l.c_str(), tag.empty() ? "" : " # ", tag.c_str());
+      done = true;
+      return;
+    }
+#endif
     if (op == "compose" && x.size() == size_t(2 * Rep)) {
       m.E[0] = elem(0); m.E[1] = elem(Rep); o.code = 0; o.d = 2; o.a = 0; o.b = 1;
     } else if (op == "inverse" && x.size() == size_t(Rep)) {
